@@ -1,1 +1,399 @@
-import GeoModel
+/-
+  Property C03 (contains) — the parts that are exact, the termination of the repaired
+  `Line.ContainsLine` walk, and machine-checked witnesses of the known defects.
+
+  PROVED (all for every rational input unless a hypothesis says otherwise):
+  * `line_walk_terminates` : `Line.containsLineO` never returns `none`, i.e. the fuel
+    `(n+2)*(m+2)` of the walk is never exhausted, for ALL series values (indexed or not,
+    valid or not).  Measure: `(m - i) * (n + 1) + walkRank` decreases at every step.
+    Corollary `line_containsLine_eq`.
+  * Rect receiver: `rect_contains_rect_iff`, `rect_contains_point_iff`,
+    `rect_contains_line_iff` (+ `rect_contains_line_iff_onSeg`: every point of every segment),
+    `rect_contains_poly_iff` (vertices of the exterior ring; holes are not looked at by the code,
+    which is right only for valid polygons, whose holes lie inside the exterior).
+  * Point receiver: `point_contains_point_iff`, `point_contains_rect_iff`,
+    `point_contains_line_iff`, `point_contains_poly_iff`.
+  * Defect witnesses `D4_wrong_true`, `D4_wrong_false`, `D5_wrong_true`, `D5_wrong_false`,
+    `D13_wrong_true`: concrete VALID inputs (validity is part of each statement) on which the
+    model — which equals the Go code by differential testing — contradicts the exact
+    specification `Spec.covers`.  Evaluated by the kernel (`decide +kernel`, no extra axiom).
+
+  NOT PROVED (out of scope / false):
+  * `Geom.contains a b = Spec.covers a b` for Line and Poly receivers.  It is FALSE as the code
+    stands (the five witnesses: known findings D4, D5, D13), and the part that is true
+    (completeness of the `false` answers of ring × segment and everything built on it) is a
+    discrete Jordan-curve statement.
+-/
+import GeoProofs.GeomLemmas
+
+namespace Geo
+open GL
+
+/-! ## termination of the `Line.ContainsLine` walk (after the D3 fix) -/
+
+/-- steps the walk can still make in its current direction without advancing `i` -/
+def walkRank (n : Nat) (st : WalkSt) : Nat :=
+  if st.dir = -1 then st.segIdx else if st.dir = 1 then n - 1 - st.segIdx else n
+
+theorem walkStep_spec (line other : Line) (n : Nat) (st : WalkSt) (hs : st.segIdx < n) :
+    (∃ b, (walkStep line other n st).2 = some b) ∨
+    ((walkStep line other n st).2 = none ∧
+      (((walkStep line other n st).1.i = st.i + 1 ∧ (walkStep line other n st).1.dir = 0 ∧
+          (walkStep line other n st).1.segIdx = st.segIdx) ∨
+       ((walkStep line other n st).1.i = st.i ∧ (walkStep line other n st).1.segIdx < n ∧
+          walkRank n (walkStep line other n st).1 < walkRank n st))) := by
+  unfold walkStep
+  simp only
+  split_ifs with h1 h2 h3 h4 h5
+  · exact Or.inr ⟨rfl, Or.inl ⟨rfl, rfl, rfl⟩⟩
+  · exact Or.inl ⟨_, rfl⟩
+  · refine Or.inr ⟨rfl, Or.inr ⟨rfl, ?_, ?_⟩⟩
+    · simp only; omega
+    · simp only [Bool.or_eq_true, beq_iff_eq, not_or] at h3
+      unfold walkRank
+      simp only [if_true]
+      split_ifs <;> omega
+  · exact Or.inl ⟨_, rfl⟩
+  · simp only [Bool.or_eq_true, beq_iff_eq, not_or] at h5
+    refine Or.inr ⟨rfl, Or.inr ⟨rfl, ?_, ?_⟩⟩
+    · simp only; omega
+    · unfold walkRank
+      simp only [show ((1 : Int) = -1) = False from eq_false (by decide), if_false, if_true]
+      split_ifs <;> omega
+  · exact Or.inr ⟨rfl, Or.inl ⟨rfl, rfl, rfl⟩⟩
+
+theorem walk_isSome (line other : Line) (n m : Nat) :
+    ∀ (fuel k : Nat) (st : WalkSt), st.segIdx < n → m ≤ st.i + k →
+      k * (n + 1) + walkRank n st + 1 ≤ fuel → (walk line other n m fuel st).isSome = true := by
+  intro fuel
+  induction fuel with
+  | zero => intro k st _ _ h; omega
+  | succ fuel ih =>
+    intro k st hs hk hf
+    rw [walk]
+    split_ifs with hi
+    · rcases walkStep_spec line other n st hs with ⟨b, hb⟩ | ⟨hnone, hcase⟩
+      · rcases hw : walkStep line other n st with ⟨st', r⟩
+        rw [hw] at hb
+        simp only at hb
+        subst hb
+        rfl
+      · rcases hw : walkStep line other n st with ⟨st', r⟩
+        rw [hw] at hnone hcase
+        simp only at hnone hcase
+        subst hnone
+        simp only
+        rcases hcase with ⟨e1, e2, e3⟩ | ⟨e1, e2, e3⟩
+        · obtain ⟨k', rfl⟩ : ∃ k', k = k' + 1 := ⟨k - 1, by omega⟩
+          apply ih k' st' (by omega) (by omega)
+          have hr : walkRank n st' = n := by
+            unfold walkRank; rw [e2]; simp
+          rw [hr]
+          rw [Nat.succ_mul] at hf
+          omega
+        · apply ih k st' e2 (by omega)
+          omega
+    · rfl
+
+theorem line_walk_terminates (line other : Line) : (line.containsLineO other).isSome = true := by
+  unfold Line.containsLineO
+  split_ifs with h
+  · rfl
+  · simp only
+    cases hf : (List.range line.numSegments).find? (fun j => (line.segmentAt j).containsSeg (other.segmentAt 0)) with
+    | none => rfl
+    | some segIdx =>
+      simp only
+      have hmem := List.mem_of_find?_eq_some hf
+      rw [List.mem_range] at hmem
+      apply walk_isSome line other _ _ _ other.numSegments ⟨segIdx, 1, 0⟩ hmem (by simp only; omega)
+      have hr : walkRank line.numSegments ⟨segIdx, 1, 0⟩ = line.numSegments := by
+        unfold walkRank; simp
+      rw [hr]
+      generalize line.numSegments = n
+      generalize other.numSegments = m
+      have : (n + 2) * (m + 2) = m * (n + 1) + (m + 2 * n + 4) := by
+        simp only [Nat.mul_add, Nat.mul_comm]; omega
+      omega
+
+/-- hence `Line.containsLine` is the value computed by the walk, never the `getD` default -/
+theorem line_containsLine_eq (line other : Line) :
+    line.containsLineO other = some (line.containsLine other) := by
+  unfold Line.containsLine
+  cases h : line.containsLineO other with
+  | none => have := line_walk_terminates line other; rw [h] at this; cases this
+  | some b => rfl
+
+/-! ## Rect receiver -/
+
+theorem rect_contains_rect_iff (r o : Box) (ho : o.min.x ≤ o.max.x ∧ o.min.y ≤ o.max.y) :
+    r.containsBox o = true ↔ ∀ p, o.containsPt p = true → r.containsPt p = true := by
+  rw [containsBox_iff]
+  constructor
+  · rintro ⟨h1, h2, h3, h4⟩ p hp
+    rw [containsPt_iff] at hp ⊢
+    obtain ⟨a1, a2, a3, a4⟩ := hp
+    exact ⟨le_trans h1 a1, le_trans a2 h2, le_trans h3 a3, le_trans a4 h4⟩
+  · intro h
+    have hmin := h o.min ((containsPt_iff _ _).2 ⟨le_refl _, ho.1, le_refl _, ho.2⟩)
+    have hmax := h o.max ((containsPt_iff _ _).2 ⟨ho.1, le_refl _, ho.2, le_refl _⟩)
+    rw [containsPt_iff] at hmin hmax
+    exact ⟨hmin.1, hmax.2.1, hmin.2.2.1, hmax.2.2.2⟩
+
+/-- the hypothesis cannot be dropped: an ill-formed `o` has no point but is not contained -/
+theorem rect_contains_rect_illformed :
+    (∀ p, (Box.mk ⟨1, 1⟩ ⟨0, 0⟩).containsPt p = true → (Box.mk ⟨5, 5⟩ ⟨6, 6⟩).containsPt p = true) ∧
+    (Box.mk ⟨5, 5⟩ ⟨6, 6⟩).containsBox (Box.mk ⟨1, 1⟩ ⟨0, 0⟩) = false := by
+  refine ⟨?_, by decide +kernel⟩
+  intro p hp
+  rw [containsPt_iff] at hp
+  obtain ⟨a1, a2, -, -⟩ := hp
+  simp only at a1 a2
+  linarith
+
+theorem rect_contains_point_iff (r : Box) (p : Pt) :
+    (Geom.rect r).contains (.point p) = true ↔
+      r.min.x ≤ p.x ∧ p.x ≤ r.max.x ∧ r.min.y ≤ p.y ∧ p.y ≤ r.max.y :=
+  containsPt_iff r p
+
+/-- the model's Rect ∋ Point is the specification's membership -/
+theorem rect_contains_point_spec (r : Box) (p : Pt) :
+    (Geom.rect r).contains (.point p) = (Spec.Shape.rect r.min r.max).member p := by
+  simp only [Geom.contains, Box.containsPt, Spec.Shape.member, ge_iff_le]
+
+theorem point_contains_point_iff (a b : Pt) :
+    (Geom.point a).contains (.point b) = true ↔ a = b := by
+  simp only [Geom.contains, decide_eq_true_eq]
+
+theorem point_contains_rect_iff (p : Pt) (r : Box) :
+    (Geom.point p).contains (.rect r) = true ↔ r.min = p ∧ r.max = p := by
+  show decide (p.box = r) = true ↔ _
+  rw [decide_eq_true_eq]
+  unfold Pt.box
+  constructor
+  · intro h; rw [← h]; exact ⟨rfl, rfl⟩
+  · rintro ⟨h1, h2⟩; cases r; simp only at h1 h2; rw [h1, h2]
+
+/-- the rectangle of a non-empty series contains a box iff the box contains every vertex -/
+theorem box_contains_seriesRect_iff (r : Box) (pts : Array Pt) (closed : Bool)
+    (h : ¬ ((closed && pts.size < 3) || pts.size < 2)) :
+    r.containsBox (processPoints pts closed).rect = true ↔ ∀ q ∈ pts.toList, r.containsPt q = true := by
+  obtain ⟨hall, ⟨p1, m1, e1⟩, ⟨p2, m2, e2⟩, ⟨p3, m3, e3⟩, ⟨p4, m4, e4⟩⟩ :=
+    bboxSpec_tight pts.toList _ (rect_tight pts closed h).symm
+  rw [containsBox_iff]
+  constructor
+  · rintro ⟨h1, h2, h3, h4⟩ q hq
+    obtain ⟨a1, a2, a3, a4⟩ := hall q hq
+    rw [containsPt_iff]
+    exact ⟨le_trans h1 a1, le_trans a2 h2, le_trans h3 a3, le_trans a4 h4⟩
+  · intro hq
+    have q1 := (containsPt_iff _ _).1 (hq p1 m1)
+    have q2 := (containsPt_iff _ _).1 (hq p2 m2)
+    have q3 := (containsPt_iff _ _).1 (hq p3 m3)
+    have q4 := (containsPt_iff _ _).1 (hq p4 m4)
+    rw [← e1, ← e2, ← e3, ← e4]
+    exact ⟨q1.1, q2.2.1, q3.2.2.1, q4.2.2.2⟩
+
+theorem mkSeries_rect (pts : Array Pt) (closed : Bool) (k : IndexKind) (m : Nat) :
+    (mkSeries pts closed k m).rect = (processPoints pts closed).rect := rfl
+theorem mkSeries_empty (pts : Array Pt) (closed : Bool) (k : IndexKind) (m : Nat) :
+    (mkSeries pts closed k m).empty = ((closed && pts.size < 3) || pts.size < 2) := rfl
+
+/-- Rect ⊇ LineString ⇔ the rectangle contains every vertex (any index kind) -/
+theorem rect_contains_line_iff (r : Box) (pts : Array Pt) (k : IndexKind) (m : Nat)
+    (h : 2 ≤ pts.size) :
+    r.containsLine (mkSeries pts false k m) = true ↔ ∀ q ∈ pts.toList, r.containsPt q = true := by
+  have hne : ¬ (((false : Bool) && pts.size < 3) || pts.size < 2) := by simp; omega
+  unfold Box.containsLine
+  rw [mkSeries_rect, mkSeries_empty, Bool.and_eq_true, box_contains_seriesRect_iff r pts false hne]
+  simp only [Bool.false_and, Bool.false_or, Bool.not_eq_true', decide_eq_false_iff_not, not_lt]
+  exact ⟨fun h => h.2, fun h' => ⟨h, h'⟩⟩
+
+/-- an empty line string is contained in nothing -/
+theorem rect_contains_line_empty (r : Box) (pts : Array Pt) (k : IndexKind) (m : Nat)
+    (h : pts.size < 2) : r.containsLine (mkSeries pts false k m) = false := by
+  unfold Box.containsLine
+  rw [mkSeries_empty]
+  simp [h]
+
+/-- … ⇔ the rectangle contains every point of every segment (a box is convex) -/
+theorem rect_contains_line_iff_onSeg (r : Box) (pts : Array Pt) (k : IndexKind) (m : Nat)
+    (h : 2 ≤ pts.size) :
+    r.containsLine (mkSeries pts false k m) = true ↔
+      ∀ i, i < (mkSeries pts false k m).numSegments → ∀ p,
+        OnSeg ((mkSeries pts false k m).segmentAt i).a ((mkSeries pts false k m).segmentAt i).b p →
+        r.containsPt p = true := by
+  rw [rect_contains_line_iff r pts k m h]
+  have hns : (mkSeries pts false k m).numSegments = pts.size - 1 := by
+    show numSegmentsOf pts false = _
+    unfold numSegmentsOf
+    simp only [Bool.false_eq_true, if_false]
+    rw [if_neg (by omega)]
+  constructor
+  · intro hv i hi p hp
+    obtain ⟨ha, hb⟩ := segmentAt_mem pts false i hi
+    exact onSeg_in_box r _ _ p (hv _ ha) (hv _ hb) hp
+  · intro hs q hq
+    obtain ⟨j, hj, rfl⟩ := List.getElem_of_mem hq
+    simp only [Array.length_toList] at hj
+    by_cases hlast : j = pts.size - 1
+    · -- the last vertex is the end of the last segment
+      have := hs (pts.size - 2) (by rw [hns]; omega) pts[j] (by
+        have e : ((mkSeries pts false k m).segmentAt (pts.size - 2)).b = pts[j] := by
+          show (segmentAtOf pts (pts.size - 2)).b = _
+          unfold segmentAtOf
+          simp only
+          rw [if_neg (by simp; omega)]
+          have : pts.size - 2 + 1 = j := by omega
+          rw [this, getElem!_pos pts j hj]
+        rw [← e]
+        exact K.onSeg_right _ _)
+      simpa using this
+    · have := hs j (by rw [hns]; omega) pts[j] (by
+        have e : ((mkSeries pts false k m).segmentAt j).a = pts[j] := by
+          show (segmentAtOf pts j).a = _
+          unfold segmentAtOf
+          simp only
+          rw [getElem!_pos pts j hj]
+        rw [← e]
+        exact K.onSeg_left _ _)
+      simpa using this
+
+/-- Rect ⊇ Polygon ⇔ the rectangle contains every vertex of the exterior ring -/
+theorem rect_contains_poly_iff (r : Box) (pts : Array Pt) (k : IndexKind) (m : Nat)
+    (holes : List Ring) (h : 3 ≤ pts.size) :
+    r.containsPoly ⟨some (.ser (mkSeries pts true k m)), holes⟩ = true ↔
+      ∀ q ∈ pts.toList, r.containsPt q = true := by
+  have hne : ¬ (((true : Bool) && pts.size < 3) || pts.size < 2) := by simp; omega
+  unfold Box.containsPoly Poly.empty Poly.rect
+  simp only [Ring.empty, Ring.rect]
+  rw [mkSeries_rect, mkSeries_empty, Bool.and_eq_true, box_contains_seriesRect_iff r pts true hne]
+  simp only [Bool.true_and, Bool.not_eq_true',
+    decide_eq_false_iff_not, not_lt, Bool.or_eq_false_iff]
+  exact ⟨fun h => h.2, fun h' => ⟨⟨by omega, by omega⟩, h'⟩⟩
+
+/-- Rect ⊇ Polygon whose exterior is a `Rect` used as a ring -/
+theorem rect_contains_rectpoly (r b : Box) (holes : List Ring) :
+    r.containsPoly ⟨some (.bx b), holes⟩ = r.containsBox b := by
+  simp [Box.containsPoly, Poly.empty, Poly.rect, Ring.empty, Ring.rect]
+
+/-! ## Point receiver -/
+
+/-- the rectangle of a non-empty series is the degenerate box at `p` iff every vertex is `p` -/
+theorem seriesRect_eq_ptbox_iff (p : Pt) (pts : Array Pt) (closed : Bool)
+    (h : ¬ ((closed && pts.size < 3) || pts.size < 2)) :
+    (processPoints pts closed).rect = p.box ↔ ∀ q ∈ pts.toList, q = p := by
+  obtain ⟨hall, ⟨p1, m1, e1⟩, ⟨p2, m2, e2⟩, ⟨p3, m3, e3⟩, ⟨p4, m4, e4⟩⟩ :=
+    bboxSpec_tight pts.toList _ (rect_tight pts closed h).symm
+  constructor
+  · intro hb q hq
+    obtain ⟨a1, a2, a3, a4⟩ := hall q hq
+    rw [hb] at a1 a2 a3 a4
+    simp only [Pt.box] at a1 a2 a3 a4
+    rw [K.pt_eq_iff]
+    exact ⟨le_antisymm a2 a1, le_antisymm a4 a3⟩
+  · intro hq
+    rw [hq p1 m1] at e1
+    rw [hq p2 m2] at e2
+    rw [hq p3 m3] at e3
+    rw [hq p4 m4] at e4
+    rcases hr : (processPoints pts closed).rect with ⟨⟨a, b⟩, ⟨c, d⟩⟩
+    rw [hr] at e1 e2 e3 e4
+    simp only at e1 e2 e3 e4
+    simp only [Pt.box, ← e1, ← e2, ← e3, ← e4]
+
+theorem point_contains_line_iff (p : Pt) (pts : Array Pt) (k : IndexKind) (m : Nat) :
+    p.containsLine (mkSeries pts false k m) = true ↔ (2 ≤ pts.size ∧ ∀ q ∈ pts.toList, q = p) := by
+  unfold Pt.containsLine
+  rw [Bool.and_eq_true, decide_eq_true_eq, mkSeries_rect, mkSeries_empty]
+  simp only [Bool.false_and, Bool.false_or, Bool.not_eq_true', decide_eq_false_iff_not, not_lt]
+  constructor
+  · rintro ⟨h, hb⟩
+    exact ⟨h, (seriesRect_eq_ptbox_iff p pts false (by simp; omega)).1 hb⟩
+  · rintro ⟨h, hq⟩
+    exact ⟨h, (seriesRect_eq_ptbox_iff p pts false (by simp; omega)).2 hq⟩
+
+theorem point_contains_poly_iff (p : Pt) (pts : Array Pt) (k : IndexKind) (m : Nat)
+    (holes : List Ring) :
+    p.containsPoly ⟨some (.ser (mkSeries pts true k m)), holes⟩ = true ↔
+      (3 ≤ pts.size ∧ ∀ q ∈ pts.toList, q = p) := by
+  show (!(mkSeries pts true k m).empty && decide ((mkSeries pts true k m).rect = p.box)) = true ↔ _
+  rw [Bool.and_eq_true, decide_eq_true_eq, mkSeries_rect, mkSeries_empty]
+  simp only [Bool.true_and, Bool.not_eq_true',
+    decide_eq_false_iff_not, not_lt, Bool.or_eq_false_iff]
+  constructor
+  · rintro ⟨⟨h, -⟩, hb⟩
+    exact ⟨h, (seriesRect_eq_ptbox_iff p pts true (by simp; omega)).1 hb⟩
+  · rintro ⟨h, hq⟩
+    exact ⟨⟨h, by omega⟩, (seriesRect_eq_ptbox_iff p pts true (by simp; omega)).2 hq⟩
+
+/-! ## defect witnesses: model (= code) against the exact specification `Spec.covers` -/
+
+theorem D4_wrong_true :
+    (Geom.line (mkSeries #[⟨0,0⟩,⟨10,0⟩] false .none 0)).contains
+        (.line (mkSeries #[⟨1,0⟩,⟨2,0⟩,⟨2,5⟩] false .none 0)) = true ∧
+    Spec.covers (.line [⟨0,0⟩,⟨10,0⟩]) (.line [⟨1,0⟩,⟨2,0⟩,⟨2,5⟩]) = false ∧
+    (Spec.Shape.line [⟨0,0⟩,⟨10,0⟩]).valid = true ∧ (Spec.Shape.line [⟨1,0⟩,⟨2,0⟩,⟨2,5⟩]).valid = true := by
+  decide +kernel
+
+theorem D4_wrong_false :
+    (Geom.line (mkSeries #[⟨4,0⟩,⟨4,2⟩,⟨4,4⟩] false .none 0)).contains
+        (.line (mkSeries #[⟨4,0⟩,⟨4,4⟩,⟨4,2⟩] false .none 0)) = false ∧
+    Spec.covers (.line [⟨4,0⟩,⟨4,2⟩,⟨4,4⟩]) (.line [⟨4,0⟩,⟨4,4⟩,⟨4,2⟩]) = true ∧
+    (Spec.Shape.line [⟨4,0⟩,⟨4,2⟩,⟨4,4⟩]).valid = true ∧ (Spec.Shape.line [⟨4,0⟩,⟨4,4⟩,⟨4,2⟩]).valid = true := by
+  decide +kernel
+
+def ringU : List Pt := [⟨0,0⟩,⟨12,0⟩,⟨12,10⟩,⟨8,10⟩,⟨8,2⟩,⟨4,2⟩,⟨4,10⟩,⟨0,10⟩,⟨0,0⟩]
+theorem D5_wrong_true :
+    (Geom.poly ⟨some (.ser (mkSeries ringU.toArray true .none 0)), []⟩).contains
+        (.line (mkSeries #[⟨0,5⟩,⟨12,10⟩] false .none 0)) = true ∧
+    ringContainsSegment (.ser (mkSeries ringU.toArray true .none 0)) ⟨⟨0,5⟩,⟨12,10⟩⟩ true = true ∧
+    Spec.covers (.poly ringU []) (.line [⟨0,5⟩,⟨12,10⟩]) = false ∧
+    (Spec.Shape.poly ringU []).valid = true ∧ (Spec.Shape.line [⟨0,5⟩,⟨12,10⟩]).valid = true := by
+  decide +kernel
+def ringN : List Pt := [⟨0,0⟩,⟨10,0⟩,⟨10,6⟩,⟨6,6⟩,⟨6,2⟩,⟨4,2⟩,⟨4,6⟩,⟨0,6⟩,⟨0,0⟩]
+theorem D5_wrong_false :
+    (Geom.poly ⟨some (.ser (mkSeries ringN.toArray true .none 0)), []⟩).contains
+        (.line (mkSeries #[⟨4,1⟩,⟨4,6⟩] false .none 0)) = false ∧
+    ringContainsSegment (.ser (mkSeries ringN.toArray true .none 0)) ⟨⟨4,1⟩,⟨4,6⟩⟩ true = false ∧
+    Spec.covers (.poly ringN []) (.line [⟨4,1⟩,⟨4,6⟩]) = true ∧
+    (Spec.Shape.poly ringN []).valid = true ∧ (Spec.Shape.line [⟨4,1⟩,⟨4,6⟩]).valid = true := by
+  decide +kernel
+def sq10 : List Pt := [⟨0,0⟩,⟨10,0⟩,⟨10,10⟩,⟨0,10⟩,⟨0,0⟩]
+def hole35 : List Pt := [⟨3,3⟩,⟨5,3⟩,⟨5,5⟩,⟨3,5⟩,⟨3,3⟩]
+theorem D13_wrong_true :
+    (Geom.poly ⟨some (.ser (mkSeries sq10.toArray true .none 0)),
+        [.ser (mkSeries hole35.toArray true .none 0)]⟩).contains (.rect ⟨⟨3,3⟩,⟨5,5⟩⟩) = true ∧
+    Spec.covers (.poly sq10 [hole35]) (.rect ⟨3,3⟩ ⟨5,5⟩) = false ∧
+    (Spec.Shape.poly sq10 [hole35]).valid = true ∧ (Spec.Shape.rect ⟨3,3⟩ ⟨5,5⟩).valid = true := by
+  decide +kernel
+
+/-- the U-shaped ring of `D5_wrong_true` -/
+add_decl_doc ringU
+/-- the notched ring of `D5_wrong_false` -/
+add_decl_doc ringN
+
+end Geo
+
+#print axioms Geo.line_walk_terminates
+#print axioms Geo.line_containsLine_eq
+#print axioms Geo.rect_contains_rect_iff
+#print axioms Geo.rect_contains_rect_illformed
+#print axioms Geo.rect_contains_point_iff
+#print axioms Geo.rect_contains_point_spec
+#print axioms Geo.point_contains_point_iff
+#print axioms Geo.point_contains_rect_iff
+#print axioms Geo.box_contains_seriesRect_iff
+#print axioms Geo.rect_contains_line_iff
+#print axioms Geo.rect_contains_line_empty
+#print axioms Geo.rect_contains_line_iff_onSeg
+#print axioms Geo.rect_contains_poly_iff
+#print axioms Geo.rect_contains_rectpoly
+#print axioms Geo.seriesRect_eq_ptbox_iff
+#print axioms Geo.point_contains_line_iff
+#print axioms Geo.point_contains_poly_iff
+#print axioms Geo.D4_wrong_true
+#print axioms Geo.D4_wrong_false
+#print axioms Geo.D5_wrong_true
+#print axioms Geo.D5_wrong_false
+#print axioms Geo.D13_wrong_true
